@@ -204,7 +204,8 @@ func c11Poll(c *eng.Ctx, poll *ssa.Function) {
 	p := c.P
 	var loop *mapLoop
 	for _, l := range entryLoops(poll) {
-		if call, _ := eng.TupleCall(l.Src()); call != nil {
+		// (the snapshot may be taken by poll's only caller and handed in)
+		if call, _ := eng.TupleCall(eng.OriginX(l.Src())); call != nil {
 			if cal := eng.Callee(&call.Call); cal != nil && p.CallGraph() != nil && returnsSnapshot(p, cal) {
 				ll := l
 				loop = &ll
@@ -502,7 +503,7 @@ func c11Poll(c *eng.Ctx, poll *ssa.Function) {
 		}())
 	}
 	// ... and the snapshot the loop runs over holds every name of the active set
-	if call, _ := eng.TupleCall(loop.Src()); call != nil {
+	if call, _ := eng.TupleCall(eng.OriginX(loop.Src())); call != nil {
 		if sn := eng.Callee(&call.Call); sn != nil {
 			for _, sl := range mapLoops(sn) {
 				if nm, isAct := activeMapOf(sl.Range.X); !isAct || nm != "m" || sl.Body == nil {
